@@ -1178,6 +1178,13 @@ func writeStepRw(w *formatting.IndentedWriter, stepType dsl.Type, target string,
 	}
 }
 
+// The local variable that holds a step's value in its previous type. Step names have no
+// underscores, so it cannot be the name of a parameter of the generated method ("value",
+// "values"), which a variable named after the step itself would shadow.
+func stepTmpVarName(step *dsl.ProtocolStep) string {
+	return "tmp_" + common.FieldIdentifierName(step.Name)
+}
+
 func writeProtocolStep(w *formatting.IndentedWriter, step *dsl.ProtocolStep, changes map[string]dsl.TypeChange, isPlural bool, write bool) {
 	target := "value"
 	if isPlural {
@@ -1195,7 +1202,7 @@ func writeProtocolStep(w *formatting.IndentedWriter, step *dsl.ProtocolStep, cha
 					fmt.Fprintln(w, "values.clear();")
 				} else {
 					tmpVarType := common.TypeSyntax(step.Type)
-					tmpVarName := common.FieldIdentifierName(step.Name)
+					tmpVarName := stepTmpVarName(step)
 					fmt.Fprintf(w, "%s %s = {};\n", tmpVarType, tmpVarName)
 					fmt.Fprintf(w, "value = std::move(%s);\n", tmpVarName)
 					if step.IsStream() {
@@ -1213,7 +1220,7 @@ func writeProtocolStep(w *formatting.IndentedWriter, step *dsl.ProtocolStep, cha
 
 			// Otherwise, we need to do explicit conversion for this ProtocolStep
 			if isPlural {
-				tmpVecName := common.FieldIdentifierName(step.Name)
+				tmpVecName := stepTmpVarName(step)
 				tmpVecType := *change.OldType().(*dsl.GeneralizedType)
 				tmpVecType.Dimensionality = &dsl.Vector{}
 				fmt.Fprintf(w, "%s %s = {};\n", common.TypeSyntax(&tmpVecType), tmpVecName)
@@ -1234,7 +1241,7 @@ func writeProtocolStep(w *formatting.IndentedWriter, step *dsl.ProtocolStep, cha
 					}
 				}
 
-				tmpVarName := common.FieldIdentifierName(step.Name)
+				tmpVarName := stepTmpVarName(step)
 				tmpVarType := common.TypeSyntax(change.OldType())
 				fmt.Fprintf(w, "%s %s = {};\n", tmpVarType, tmpVarName)
 
